@@ -18,7 +18,7 @@ advance_and_resize compute the next window as [start + old size, min(end + next 
 old size read before it is overwritten, return None when empty, and EthSyncGap::page starts at oldest()
 with last = start + (size - 1) clamped to latest(); (5) sync start: the initial synced height is the
 stored finalized height or da_deploy_height - 1, EthState.local is that observed height, and the gap
-handed to download_logs is [local + 1, remote].
+handed to download_logs is [local + 1, remote]. (7) run(): set_local / update_synced only on the Some edge of the stored finalized height, with that height itself (no default), read after the download attempt.
 """
 NOT_DECIDED = """Numeric behaviour of the pager beyond the operand structure (saturation at u64::MAX, AdaptivePageSizer sizes); the Ethereum node's answers."""
 
